@@ -38,7 +38,14 @@ def gen_edits(rng, spec):
     for _ in range(rng.randint(1, 3)):
         ti = rng.randrange(len(s2['tables']))
         t = s2['tables'][ti]
-        kind = rng.choice(['tname', 'tname', 'cname', 'cname', 'ctype', 'tschema', 'cpk', 'cpk', 'cflag'])
+        kind = rng.choice(['tname', 'tname', 'cname', 'cname', 'ctype', 'tschema', 'cpk', 'cpk', 'cflag', 'rdel'])
+        if kind == 'rdel':
+            # a reference is removed between the two renderings: what the script says afterwards is what the remaining model says
+            if s2['refs']:
+                ri = rng.randrange(len(s2['refs']))
+                s2['refs'].pop(ri)
+                edits.append(['rdel', ri])
+            continue
         if kind == 'tname':
             new = t['name'] + '_v2'
             if any(x['name'] == new for x in s2['tables']):
@@ -87,7 +94,12 @@ def impl_job(job):
                 O.run(lambda x=x: x.sql)
             for t in hd['tables']:
                 O.run(lambda t=t: t.sql)
+            live_refs = list(hd['refs'])
             for e in edits:
+                if e[0] == 'rdel':
+                    db.delete(live_refs.pop(e[1]))
+                    hd['refs'] = live_refs
+                    continue
                 t = hd['tables'][e[1]]
                 if e[0] == 'tname':
                     t.name = e[2]
@@ -127,6 +139,17 @@ def impl_job(job):
             r['order'] = None
     if r['sql'][0] == 'ok' and SO.hygienic(spec):
         r['oracle'] = SO.check_sql(spec, r['sql'][1])[pid]
+    if pid == 'C18':
+        # "depends only on the model": rendering leaves the model as it is, and a database with a history is ordered like a
+        # freshly built one with the same content
+        r['tables_kept'] = len(db.tables) == len(hd['tables']) and all(a is b for a, b in zip(db.tables, hd['tables']))
+        if edits and r['sql'][0] == 'ok':
+            try:
+                fresh, _ = GD.build(spec)
+                fs = O.run(lambda: fresh.sql)
+                r['fresh_order'] = obs_order(fs[1]) if fs[0] == 'ok' else None
+            except Exception:  # noqa: BLE001
+                r['fresh_order'] = None
     return r
 
 
@@ -230,6 +253,15 @@ def run_sql_check(ctx, pid, extra_parts=None):
         for f in feats:
             ctx.count('feature:' + f)
         ctx.count('sql:' + (r['sql'][0] if r['sql'][0] == 'ok' else r['sql'][1]))
+        if pid == 'C18':
+            case18 = {'op': 'sql', 'spec': spec, 'history': r.get('history')}
+            if r.get('tables_kept') is False:
+                ctx.fail('rendering .sql changed db.tables (the order of the model depends on whether it has been rendered)', case18,
+                         sql=r['sql'][1])
+            if r.get('fresh_order') is not None and r['sql'][0] == 'ok' and obs_order(r['sql'][1]) != r['fresh_order']:
+                ctx.fail('the CREATE TABLE order of an edited database differs from that of a freshly built database with the same '
+                         'content (the order does not depend on the model alone)', case18,
+                         detail={'edited': obs_order(r['sql'][1]), 'fresh': r['fresh_order']})
         # oracle
         if 'oracle' in r:
             ctx.count('oracle:read-back')
